@@ -13,7 +13,8 @@ and F(sender) on the request's shape / area, AREA exactly when F(ego) >= 0, DISC
 sender's PV known, accurate and inside, NON-AREA only when outside; the forwarder hands the selection the packet's own
 shape and source address) and that EVERY emission of the GBC origination / forwarding functions lies under an explicit
 AREA or NON-AREA outcome - a send that bypasses the selection or sits under "not one value" fails -, handlers that
-forward without the selection applying the sender-inside discard inline.
+forward without the selection applying the sender-inside discard inline, on a sender entry read after this packet was filed in
+the location table.
 Does not decide the numerical accuracy of the distance projection over the continuous plane, pole behaviour, nor that
 the meridian correction is numerically right (only that one is present).
 """
@@ -559,6 +560,31 @@ def _later_sibling_top(fl, stmt: ast.AST, target: ast.AST):
 
 def annex_d(ctx, handlers):
     P = ctx.prog
+    # the sender's table entry that feeds a forwarding decision (Annex D "sender inside the area", PDR enforcement) is read
+    # AFTER this packet was filed in the location table: read before, the entry of a station heard for the first time is None
+    # and the check is skipped for exactly that packet
+    n_rd = 0
+    lt_cls = P.cls("geonet.location_table.LocationTable")
+    for name in ("gn_data_indicate_gbc", "gn_data_indicate_gac"):
+        h = handlers.get(name)
+        if h is None:
+            continue
+        hfl = ctx.flows.get(h.fi)
+        for c in P.calls_in(h.fi):
+            if not (isinstance(c.func, ast.Attribute) and c.func.attr == "get_entry" and sem.same(c.func.value, "self.location_table") and c.args):
+                continue
+            if "so_pv.gn_addr" not in sem.cx(hfl.expand(c.args[0], hfl.state_at(c))):
+                continue
+            n_rd += 1
+            filed = any(f.kind == "call" and any(isinstance(t, str) and t.startswith(lt_cls.qual + ".new_") for t in f.targets)
+                        for f in hfl.state_at(c).facts)
+            ctx.ob("C07.annex-d", h.fi.short(), "sender-entry-read-after-table-update", filed,
+                   "the sender's LocTE consulted by the forwarder is read after the packet was filed in the location table" if filed else
+                   "the sender's LocTE is read before the location-table update of this packet: for the first packet of a station the entry is None, "
+                   "so the `sender inside the area -> discard` (Annex D) and PDR checks are skipped and the packet is forwarded out of / into the area",
+                   f"{h.fi.module.rel}:{c.lineno}")
+    if n_rd < 1:
+        raise AnalysisError("C07: no handler reads the sender's location-table entry any more (confirmed: GAC forwarder)")
     fi = P.func(f"{ROUTER}.gn_forwarding_algorithm_selection")
     fl = ctx.flows.get(fi)
     if len(fi.params) < 3:
